@@ -76,7 +76,17 @@ def build_tree(rng, idx: int):
         d = rng.choice(fdirs)
         tok = f"fixture_t{idx}_init"
         cls = f"FixtureBox{idx}"
-        files[f"src/{d}/__init__.py"] = f'"""Test support."""\n\n\ndef {tok}(a: int = 0) -> int:\n    return a\n\n\nclass {cls}:\n    held: int = 0\n'
+        files[f"src/{d}/__init__.py"] = (
+            f'"""Test support."""\n\n\ndef {tok}(a: int = 0) -> int:\n    return a\n\n\nclass {cls}:\n    held: int = 0\n'
+            # class hierarchies that share their names with hierarchies of the regular code but not their nature (an ordinary
+            # class here, an exception there, and the other way round)
+            f"\n\nclass Failure{idx}:\n    pass\n\n\nclass ExpectedFailure{idx}(Failure{idx}):\n    pass\n\n\nclass Record{idx}(Exception):\n    pass\n\n\nclass DiskRecord{idx}(Record{idx}):\n    pass\n"
+        )
+        files[f"src/pk/zz_errors_{idx}.py"] = (
+            f"class Failure{idx}(Exception):\n    pass\n\n\nclass ParseFailure{idx}(Failure{idx}):\n    def where(self) -> int: ...\n\n\n"
+            f"class Record{idx}:\n    def key(self) -> int: ...\n\n\nclass AuditRecord{idx}(Record{idx}):\n    def author(self) -> str: ...\n\n\ndef fn_errors_{idx}() -> int:\n    return 1\n"
+        )
+        gt.append({"rel": f"src/pk/zz_errors_{idx}.py", "module_id": f"pk/zz_errors_{idx}", "token": f"fn_errors_{idx}", "cls": f"AuditRecord{idx}", "filtered": False, "proper_package": True})
         gt.append({"rel": f"src/{d}/__init__.py", "module_id": d, "token": tok, "cls": cls, "filtered": True, "proper_package": True, "is_init": True})
         user = f"uses_fixture_{idx}"
         files[f"src/pk/{user}.py"] = f"from {d.replace('/', '.')} import {tok}, {cls}\n\n\ndef fn_user_{idx}(x: int = 1) -> int:\n    return {tok}(x)\n\n\nclass ClsUser{idx}:\n    y: int = 2\n"
